@@ -787,6 +787,12 @@ fn generate_variant_map_internal(
                 );
             }
 
+            // A search term without ASCII letters or digits has no tokens and renders as the
+            // empty string in every style; an empty variant would match at every position.
+            if search_variant.is_empty() {
+                continue;
+            }
+
             map.entry(search_variant).or_insert(replace_variant);
         }
     }
@@ -796,7 +802,10 @@ fn generate_variant_map_internal(
     // will be exactly as the user typed it (e.g., FormAPI not FormApi)
     // BUT: Only do this when using default styles AND the search term is NOT ambiguous
     // This must come AFTER generating style variants to override any that match the exact input
-    if using_default_styles && !crate::ambiguity::is_ambiguous(search, &Style::all_styles()) {
+    if using_default_styles
+        && !search.is_empty()
+        && !crate::ambiguity::is_ambiguous(search, &Style::all_styles())
+    {
         // Using default styles and search is not ambiguous - add exact match preservation
         map.insert(search.to_string(), replace.to_string());
     }
